@@ -106,6 +106,20 @@ def sweep_cases(rng, tmpdir):
         ('cal property 0 0 set ' + h('k'), ('EINVAL',), True), ('cal property 0 0 delete ' + h('nothing.here'), ('ENOENT',), True), ('cal property 0 -1 count ' + h('g'), ('EINVAL',), True),
         ('cal property 0 -1 keys ' + h('g'), ('EINVAL',), True), ('cal property 0 -2 get ' + h('g'), ('ENOENT', 'EINVAL'), True),
     ]
+    # frequency-vector arguments: every position made NaN / negative / not above its predecessor (a second, still empty vnacal_new_t of 3 points)
+    cal_setup.append('cal new_alloc 0 5 0 2 2 3')
+    f3 = [f1, f2, f2 * 1.5]
+    nan = '7ff8000000000000'
+    for pos in range(3):
+        for bad in [nan, d2(-1.0)] + ([d2(f3[pos - 1]), d2(f3[pos - 1] * 0.5)] if pos else []):
+            v = [d2(x) for x in f3]
+            v[pos] = bad
+            cal_bad.append(('cal new_set_frequency_vector 5 ' + ' '.join(v), ('EINVAL',), False))
+    for pos in range(1, 3):
+        for bad in (d2(f3[pos - 1]), d2(f3[pos - 1] * 0.5)):
+            v = [d2(x) for x in f3]
+            v[pos] = bad
+            cal_bad.append(('cal make_vector 0 3 %s %s %s %s' % (' '.join(v), z(0.1), z(0.2), z(0.3)), ('EINVAL',), False))
     dut = sc.random_dut()
     G.append(('vnacal', cal_setup, cal_bad, 'cal savestr 0',
               [sc.apply_line(0, dut), 'cal find_calibration 0 ' + h('one'), 'cal property 0 0 get ' + h('k'), 'cal new_free 0', 'cal free 0']))
